@@ -12,7 +12,8 @@ SPEC = {
              "failure at instance i; the real engine with recording doubles, 24 cases concurrently per process (sleep-bound). "
              "Non-trivial = >= 2 instances over >= 2 distinct startup instants; distinct = hash of the case."),
     "floors": {"TestStartup/mode_long": 0.15, "TestStartup/cut_short_ammo": 0.02, "TestStartup/cut_short_creation_failed": 0.03,
-               "TestStartup/composite_startup": 0.3, "TestStartup/all_tokens_started": 0.3},
+               "TestStartup/composite_startup": 0.3, "TestStartup/all_tokens_started": 0.3,
+               "TestStartup/per_instance_profile_shorter_than_startup": 0.03},
     "manifest": {
         "technique": "property-based testing (rapid generators, batch-parallel) of the real engine; validity predicates over measured instants",
         "text": ("Startup profiles are generated, the engine is run with recording doubles, and measured instants are compared: the k-th gun "
